@@ -152,11 +152,25 @@ fn check_pl(obs: &mut Obs, text: &str, how: &dyn Fn() -> Value) -> Option<Vec<u8
         obs.count("pl_ok_with_warnings");
         obs.add("pl_warnings_total", warnings.len() as u64);
     }
-    // the pltotf binary prints every warning with its context line
+    // the pltotf binary prints every warning with its context line. Rendering one message scans
+    // the source up to the warning, so rendering all of 10^5 warnings is quadratic: render every
+    // *kind* of warning at least once, the first 48 and the last 16.
     let r = catch(|| {
         let mut n = 0usize;
-        for w in &warnings {
-            n += w.pltotf_message(text).len();
+        let mut kinds: Vec<String> = vec![];
+        let len = warnings.len();
+        for (i, w) in warnings.iter().enumerate() {
+            let mut wanted = i < 48 || i + 16 >= len;
+            if !wanted {
+                let k = variant_name(&w.kind);
+                if !kinds.contains(&k) {
+                    kinds.push(k);
+                    wanted = true;
+                }
+            }
+            if wanted {
+                n += w.pltotf_message(text).len();
+            }
         }
         n
     });
@@ -180,6 +194,24 @@ fn check_pl(obs: &mut Obs, text: &str, how: &dyn Fn() -> Value) -> Option<Vec<u8
         }
         Ok((Err(e), _)) => {
             obs.count("pl2tfm_output_rejected");
+            // Known finding C10-pl-output-exceeds-tfm-capacity (only reachable once the i16
+            // overflow in valid_lf is repaired): the property list needs more than 32767 words,
+            // which the format cannot express. Deviation model: the writer emits every table
+            // completely and saturates lf at 32767, so the only thing wrong with the output is lf.
+            // Trigger and model are evaluated by our own arithmetic on the output header.
+            let total = if bytes.len() >= 24 { consistent_lf(&bytes) } else { 0 };
+            if variant_name(&e) == "InconsistentSubFileSizes"
+                && total > 32767
+                && get_word(&bytes, 0) == 32767
+                && bytes.len() as i64 == 4 * total
+            {
+                obs.known(
+                    "C10-pl-output-exceeds-tfm-capacity",
+                    json!({"words_needed": total, "reader_error": format!("{e:?}"),
+                           "input": text_witness(text), "derived": how()}),
+                );
+                return Some(bytes);
+            }
             obs.violation(
                 format!("pl_to_tfm-output-rejected-by-reader:{}", variant_name(&e)),
                 json!({"reader_error": format!("{e:?}"), "input": text_witness(text),
@@ -330,6 +362,55 @@ fn known_cases() -> Vec<(&'static str, KnownInput)> {
         "label-below-first-character",
         KnownInput::Pl("(LIGTABLE (LABEL C A) (KRN C B R 0.1) (STOP))\n(CHARACTER C B (CHARWD R 1.0))\n".into()),
     ));
+    // 4. a valid font whose header is 257 words long (HEADER index 256 no longer fits in a u8)
+    let lh = 257u16;
+    let lf = 6 + lh + 4;
+    let mut b = vec![0u8; lf as usize * 4];
+    for (w, val) in [(0, lf), (1, lh), (2, 1), (3, 0), (4, 1), (5, 1), (6, 1), (7, 1)] {
+        set_word(&mut b, w, val);
+    }
+    b[24 + 4] = 0x00; // design size 10.0
+    b[24 + 5] = 0xA0;
+    v.push(("header-257-words", KnownInput::Tfm(b)));
+    // 5./6. warnings whose message is `todo!()`
+    v.push((
+        "warning-not-really-seven-bit-safe",
+        KnownInput::Pl("(SEVENBITSAFEFLAG TRUE)\n(CHARACTER C A (NEXTLARGER O 377))\n(CHARACTER O 377)\n".into()),
+    ));
+    v.push(("warning-decimal-too-big", KnownInput::Pl("(DESIGNUNITS R 2048)\n".into())));
+    // 7. kern of 16.0 reaches the assertion in FixWord::to_scaled through the cycle check
+    v.push((
+        "kern-16",
+        KnownInput::Pl("(LIGTABLE (LABEL C A) (KRN C A R 16.0) (STOP))\n(CHARACTER C A (CHARWD R 1.0))\n".into()),
+    ));
+    // 8./9. lossy compression of 17 heights: difference / midpoint overflow i32
+    let mut t = String::new();
+    for i in 0..17 {
+        t.push_str(&format!("(CHARACTER D {} (CHARWD R 1.0) (CHARHT R {}.0))\n", i, -2047 + i * 255));
+    }
+    v.push(("compress-range-4080", KnownInput::Pl(t)));
+    let mut t = String::new();
+    for i in 0..17 {
+        t.push_str(&format!("(CHARACTER D {} (CHARWD R 1.0) (CHARHT R {}.0))\n", i, 1100 + i * 59));
+    }
+    v.push(("compress-midpoint-2259", KnownInput::Pl(t)));
+    // 10./11./12. checksum computed for a width outside (-16, 16)
+    v.push(("checksum-negative-width", KnownInput::Pl("(CHARACTER O 0 (CHARWD R -17.0))\n".into())));
+    v.push(("checksum-large-width", KnownInput::Pl("(CHARACTER O 377 (CHARWD R 2000.0))\n".into())));
+    v.push((
+        "checksum-width-2^31-1",
+        KnownInput::Pl("(CHARACTER O 0 (CHARWD R 1.0))\n(CHARACTER O 1 (CHARWD R 2027.999999))\n".into()),
+    ));
+    // 13. LIGTABLE one instruction past the limit plus a second warning: the sort key panics
+    let mut t = String::from("(CHECKSUM X)\n(LIGTABLE (LABEL C A)\n");
+    for i in 0..32511 {
+        t.push_str(&format!("(KRN D {} R 0.{})", i % 256, i % 1000));
+        if i % 8 == 7 {
+            t.push('\n');
+        }
+    }
+    t.push_str(")\n(CHARACTER C A (CHARWD R 1.0))\n");
+    v.push(("ligtable-32511-instructions", KnownInput::Pl(t)));
     v
 }
 
@@ -341,15 +422,46 @@ enum KnownInput {
 // ------------------------------------------------------------------------------------------
 // phases
 
-const SHIFT_DELTAS: [i32; 14] = [1, -1, 2, -2, 3, -3, 5, -5, 17, -17, 100, -100, 255, -255];
+const SHIFT_DELTAS: [i32; 14] = [1, -1, 3, -17, 100, -255, 2, -2, -3, 5, -5, 17, -100, 255];
+fn shift_deltas(tier: Tier) -> &'static [i32] {
+    match tier {
+        Tier::Quick => &SHIFT_DELTAS[..6],
+        Tier::Thorough => &SHIFT_DELTAS[..],
+    }
+}
 
-fn mut_slots(tier: Tier, len: usize) -> usize {
-    // number of mutated positions per corpus font (cost of one conversion grows with the file)
-    let cap = match tier {
-        Tier::Quick => 1200,
-        Tier::Thorough => 16000,
+/// Number of mutated byte positions per corpus font. One conversion costs time proportional to
+/// the size of the property list the font converts to (measured ~40 ns per byte of PL for the
+/// whole chain), which is not predictable from the size of the font (many-entrypoints.tfm: 2 KB
+/// of TFM, 750 KB of PL), so the unmutated font is converted once to size its share.
+fn mut_slots(tier: Tier, font: usize) -> usize {
+    static PL_LEN: std::sync::OnceLock<Vec<usize>> = std::sync::OnceLock::new();
+    let pl_len = PL_LEN.get_or_init(|| {
+        corpus()
+            .tfm
+            .iter()
+            .map(|(_, b)| {
+                let r = catch(|| tfm::algorithms::tfm_to_pl(b, 3, &|_| Default::default()));
+                match r {
+                    Ok(Ok(o)) => o.pl_data.map(|s| s.len()).unwrap_or(200),
+                    _ => b.len() * 20,
+                }
+            })
+            .collect()
+    });
+    let len = corpus().tfm[font].1.len();
+    // conversions affordable for this font
+    let budget_ns: f64 = match tier {
+        Tier::Quick => 4.0e9,
+        Tier::Thorough => 50e9,
     };
-    len.min(cap)
+    let per_conv_ns = 20_000.0 + 40.0 * pl_len[font] as f64;
+    let values_per_slot = match tier {
+        Tier::Quick => 6.0,
+        Tier::Thorough => 12.0,
+    };
+    let slots = (budget_ns / per_conv_ns / values_per_slot) as usize;
+    len.min(slots.max(96))
 }
 
 const NEST_DEPTHS_QUICK: [usize; 6] = [1, 10, 100, 1000, 10_000, 30_000];
@@ -465,7 +577,7 @@ impl Monitor for M {
         let np = c.pl.len().max(1) as u64;
         let ntempl = short_templates().len() as u64;
         let total_len: u64 = c.tfm.iter().map(|(_, b)| b.len() as u64).sum();
-        let total_slots: u64 = c.tfm.iter().map(|(_, b)| mut_slots(tier, b.len()) as u64).sum();
+        let total_slots: u64 = (0..c.tfm.len()).map(|f| mut_slots(tier, f) as u64).sum();
         let nest = match tier {
             Tier::Quick => NEST_DEPTHS_QUICK.len(),
             Tier::Thorough => NEST_DEPTHS_THOROUGH.len(),
@@ -475,13 +587,13 @@ impl Monitor for M {
             Phase::new("hdr-short", ntempl * 12 * 2).batch(1),
             Phase::new("hdr-rand", tier.pick(150_000, 6_000_000)).batch(2048),
             Phase::new("hdr-corpus", nt * 12).batch(1),
-            Phase::new("hdr-shift", nt * 110 * SHIFT_DELTAS.len() as u64).batch(64),
+            Phase::new("hdr-shift", nt * 110 * shift_deltas(tier).len() as u64).batch(64),
             Phase::new("trunc", total_len.div_ceil(512)).batch(8),
             Phase::new("mut1", total_slots.max(1)).batch(32),
-            Phase::new("mut2", tier.pick(30_000, 1_500_000)).batch(64),
+            Phase::new("mut2", tier.pick(50_000, 1_000_000)).batch(64),
             Phase::new("pl-corpus", np * 44).batch(4),
-            Phase::new("pl-mut", tier.pick(25_000, 1_200_000)).batch(16),
-            Phase::new("pl-gen", tier.pick(250_000, 12_000_000)).batch(512),
+            Phase::new("pl-mut", tier.pick(45_000, 800_000)).batch(16),
+            Phase::new("pl-gen", tier.pick(500_000, 12_000_000)).batch(512),
             Phase::new("pl-big", tier.pick(600, 20_000)).batch(2),
             Phase::new("pl-nest", nest * NEST_SHAPES as u64).batch(1),
         ];
@@ -496,7 +608,7 @@ impl Monitor for M {
         let q = tier == Tier::Quick;
         vec![
             ("tfm_inputs", if q { 1_000_000 } else { 40_000_000 }),
-            ("pl_inputs", if q { 300_000 } else { 10_000_000 }),
+            ("pl_inputs", if q { 500_000 } else { 10_000_000 }),
             ("tfm_ok_clean", 1_000),
             ("tfm_ok_with_warnings", 10_000),
             ("tfm_err:InternalFileLengthIsTooBig", 1_000),
@@ -515,7 +627,7 @@ impl Monitor for M {
             ("hdr_shift_parsed", 1_000),
             ("trunc_inputs", 100_000),
             ("mut1_inputs", 100_000),
-            ("pl_mut_cases", if q { 20_000 } else { 1_000_000 }),
+            ("pl_mut_cases", if q { 40_000 } else { 700_000 }),
             ("pl_mut:number", 1_000),
             ("pl_mut:drop", 1_000),
             ("pl_mut:duplicate", 1_000),
@@ -703,8 +815,9 @@ impl M {
                     obs.inconclusive("no corpus fonts");
                     return;
                 }
-                let nd = SHIFT_DELTAS.len() as u64;
-                let d = SHIFT_DELTAS[(idx % nd) as usize];
+                let deltas = shift_deltas(obs.tier);
+                let nd = deltas.len() as u64;
+                let d = deltas[(idx % nd) as usize];
                 let pair = (idx / nd) % 110;
                 let f = ((idx / nd / 110) as usize) % c.tfm.len();
                 // ordered pair (x, y) of distinct words among 1..=11
@@ -777,8 +890,8 @@ impl M {
                 // idx enumerates mutation slots font by font
                 let mut k = idx as usize;
                 let mut file = None;
-                for (i, (_, b)) in c.tfm.iter().enumerate() {
-                    let s = mut_slots(obs.tier, b.len());
+                for i in 0..c.tfm.len() {
+                    let s = mut_slots(obs.tier, i);
                     if k < s {
                         file = Some((i, s));
                         break;
@@ -790,24 +903,22 @@ impl M {
                     return;
                 };
                 let (name, base) = &c.tfm[f];
-                // slot -> position: all positions if the file is small, else the first 512 bytes
-                // (header, start of char_info) exactly and the rest evenly spread with jitter
-                let pos = if slots == base.len() {
-                    k
-                } else if k < 512 {
+                // slot -> position: all positions if affordable, else the first 64 bytes (sizes and
+                // start of the header) exactly and the rest evenly spread with jitter
+                let pos = if slots == base.len() || k < 64 {
                     k
                 } else {
-                    let rest = base.len() - 512;
-                    let step = rest as f64 / (slots - 512) as f64;
-                    let p = 512 + ((k - 512) as f64 * step) as usize + rng.usize_below(step.max(1.0) as usize);
+                    let rest = base.len() - 64;
+                    let step = rest as f64 / (slots - 64) as f64;
+                    let p = 64 + ((k - 64) as f64 * step) as usize + rng.usize_below(step.max(1.0) as usize);
                     p.min(base.len() - 1)
                 };
                 let orig = base[pos];
                 let nvals = match obs.tier {
-                    Tier::Quick => 4,
-                    Tier::Thorough => 10,
+                    Tier::Quick => 3,
+                    Tier::Thorough => 9,
                 };
-                let mut vals: Vec<u8> = vec![orig.wrapping_add(1), orig.wrapping_sub(1), orig ^ 0x80, 255 - orig];
+                let mut vals: Vec<u8> = vec![orig.wrapping_add(1), orig.wrapping_sub(1), orig ^ 0x80];
                 for _ in 0..nvals {
                     vals.push(match rng.below(4) {
                         0 => *rng.pick(&[0u8, 1, 2, 3, 127, 128, 129, 254, 255]),
@@ -979,6 +1090,27 @@ impl M {
                 if obs.wants_sample() {
                     obs.sample(how());
                 }
+            }
+            "probe-default-stack" => {
+                // Development probe, not part of any tier (see NOTES.md): run one nesting case on
+                // a thread with the default 8 MiB main-thread stack. A stack overflow kills the
+                // process (SIGSEGV/SIGABRT), which is the observation.
+                //   c10 --case probe-default-stack <shape + 8*depth>
+                let shape = (idx % 8) as usize;
+                let depth = (idx / 8) as usize;
+                let (text, sname) = nest_text(shape, depth);
+                println!("probe: shape {sname} depth {depth} on an 8 MiB stack");
+                let h = std::thread::Builder::new()
+                    .stack_size(8 << 20)
+                    .spawn(move || {
+                        let r = catch(|| tfm::algorithms::pl_to_tfm(&text));
+                        match r {
+                            Ok((b, w)) => println!("probe: returned {} bytes, {} warnings", b.len(), w.len()),
+                            Err(p) => println!("probe: panic {}", p.signature()),
+                        }
+                    })
+                    .expect("spawn");
+                let _ = h.join();
             }
             other => obs.inconclusive(format!("unknown phase {other}")),
         }
